@@ -18,8 +18,8 @@ var (
 		{{ID: "p1", Subnets: []string{"s1", "s2"}, IPs: []string{"ip1"}}, {ID: "p2", Subnets: []string{"s1"}, IPs: []string{"ip4", "ip5"}}},
 	}
 	cfgKeep = []env.Config{ // every IP stays configured across reloads; the second pool shares the pod subnet with the first
-		{{ID: "p1", Subnets: []string{"s1"}, IPs: []string{"ip1", "ip2"}}, {ID: "p2", Subnets: []string{"s1", "s2"}, IPs: []string{"ip3", "ip4"}}},
-		{{ID: "p1", Subnets: []string{"s1"}, IPs: []string{"ip1", "ip2"}}, {ID: "p2", Subnets: []string{"s1", "s2"}, IPs: []string{"ip3", "ip4", "ip5"}}},
+		{{ID: "p1", Subnets: []string{"s1"}, IPs: []string{"ip1"}}, {ID: "p2", Subnets: []string{"s1", "s2"}, IPs: []string{"ip3", "ip4"}}},
+		{{ID: "p1", Subnets: []string{"s1"}, IPs: []string{"ip1"}}, {ID: "p2", Subnets: []string{"s1", "s2"}, IPs: []string{"ip3", "ip4", "ip5"}}},
 	}
 	cfgTight = []env.Config{ // few IPs: contention
 		{{ID: "p1", Subnets: []string{"s1"}, IPs: []string{"ip1", "ip2"}}},
@@ -157,7 +157,9 @@ func pickScenario(rng *rand.Rand, focus string) scenario {
 		sc.WStep, sc.WEnv, sc.WStart = 40, 30, 30
 		if rng.Intn(3) == 0 { // configuration reloads that still contain the IPs (pools sharing the pod subnet)
 			sc.Cfgs, sc.NodeSub = cfgKeep, nodesTwoSubnets
-			sc.Feat["reload"] = true
+			sc.Feat["reload"], sc.Feat["cycle"] = true, true
+			sc.Specs = append(sc.Specs, sts("s-1", 0))
+			sc.Sts["s"] = 2
 		}
 	case "c07": // sized pool shared by two deployments; concurrent filters and pool updates
 		sc.Cfgs, sc.NodeSub = cfgOne, nodesOneSubnet
@@ -190,12 +192,13 @@ func pickScenario(rng *rand.Rand, focus string) scenario {
 		sc.Sts["s"], sc.Sts["m"] = 1, 2
 		sc.MaxInc, sc.Faults = 3, 2
 		sc.Feat = feat("resync")
-		if rng.Intn(2) == 0 { // template change: later incarnations ask for more ranges, some already owned
+		if rng.Intn(3) > 0 { // template change: later incarnations ask for more ranges, some already owned
 			alt := [][][]string{{{"ip2"}, {"ip1"}, {"ip4"}}, {{"ip2"}, {"ip4"}, {"ip1"}}, {{"ip1"}, {"ip2"}, {"ip4"}}}[rng.Intn(3)]
 			sc.AltRanges = map[string][][]string{"m-0": alt}
 			sc.Specs = []env.PodSpec{{Name: "m-0", Kind: "sts", App: "m", Policy: pol(rng, 1, 2), Ranges: [][]string{{"ip1"}, {"ip4"}}}, sts("s-0", 0)}
 			sc.Faults = 1
 			sc.Feat["cycle"] = true
+			sc.Feat["rollout"] = true // the trace starts with m-0's first generation bound, deleted and its IPs reserved
 		}
 	case "c09": // reload while operations run; admin reservations with late events
 		sc.Cfgs, sc.NodeSub = cfgTwoPools, nodesTwoSubnets
@@ -224,6 +227,11 @@ func pickScenario(rng *rand.Rand, focus string) scenario {
 		}
 		if rng.Intn(3) == 0 {
 			sc.Specs = append(sc.Specs, env.PodSpec{Name: "b-0", Kind: "bare", Policy: 0})
+		}
+		if rng.Intn(3) == 0 { // pods of a sized pool: filter allocates for them, bind must find that allocation
+			sc.Specs = append(sc.Specs, dp("e-a", "e", 2, "pl"), dp("e-b", "e", 2, "pl"))
+			sc.Dp["e"] = 2
+			sc.Pools["pl"] = 1 + rng.Intn(2)
 		}
 		sc.Sts["s"], sc.Dp["d"] = 2, 2
 		sc.MaxInc, sc.MaxOps, sc.Faults = 3, 1+rng.Intn(2), 0
